@@ -1,7 +1,7 @@
 """Evaluation of specification expressions over symbolic states."""
 import z3
 
-from .model import forall, add0, Val, Ptr, Unsupported
+from .model import _pattern_ok as model_pattern_ok, forall, add0, Val, Ptr, Unsupported
 from .spec import ParseError
 
 
@@ -51,6 +51,11 @@ class Env:
 class TypeRef:
     def __init__(self, key):
         self.key = key
+
+
+# uninterpreted functions of the library models that contracts may name (argument sorts then result sort)
+SPEC_UFS = {'isnumeral': 'SIB', 'numval': 'SII', 'nsplit': 'SSI', 'splitpart': 'SSIS', 'trimspace': 'SS', 'trimsuffix': 'SSS',
+            'atoi_ok': 'SB', 'atoi_val': 'SI', 'cutbefore': 'SSS', 'cutafter': 'SSS', 'cutfound': 'SSB', 'bigexp': 'III'}
 
 
 class SpecEval:
@@ -121,7 +126,11 @@ class SpecEval:
                     cands.append(k)
                 continue
             pk = t.get('pkg', '')
-            short = (pk.rsplit('/', 1)[-1] + '.' if pk else '') + t['name']
+            parts = pk.split('/') if pk else []
+            last = parts[-1] if parts else ''
+            if len(parts) > 1 and len(last) > 1 and last[0] == 'v' and last[1:].isdigit():
+                last = parts[-2]   # module path with a major version suffix
+            short = (last + '.' if pk else '') + t['name']
             if short == base or k == base:
                 cands.append(k)
             elif '.' not in base and t['name'] == base:
@@ -428,6 +437,8 @@ class SpecEval:
         f = ast[1]
         args = ast[2]
         m = self.m
+        if f[0] == 'sel':
+            return self.method_call(f, args, env)
         if f[0] != 'id':
             raise SpecError('only named functions can be called in specifications')
         name = f[1]
@@ -469,6 +480,17 @@ class SpecEval:
             if not isinstance(v, Val) or m.kind(v.t) != 'interface':
                 raise SpecError('typeis on a non-interface value')
             return m.any_is(tk, v.leaves[0])
+        if name == 'asiface':
+            # asiface(x, T): the value x (concrete pointer or interface) seen as the interface type T
+            v = self.eval(args[0], env)
+            tk = self.type_key(args[1])
+            if m.kind(v.t) == 'interface':
+                return Val(tk, [v.leaves[0]])
+            return Val(tk, [m.any_make(v.t, [self.term(v)])])
+        if name == 'rangeof':
+            # rangeof(v): the Range recorded in the AST node held by the interface value v
+            v = self.eval(args[0], env)
+            return self.range_of(v, env)
         if name == 'as':
             v = self.eval(args[0], env)
             tk = self.type_key(args[1])
@@ -484,6 +506,57 @@ class SpecEval:
             a = self.eval_term(args[1], env)
             b = self.eval_term(args[2], env)
             return z3.If(c, a, b)
+        if name == 'forallidx':
+            # forall over an index, instantiated only where some sequence is read at that index
+            # (patterns: the reads X[i] of the body whose X does not depend on i)
+            if args[0][0] != 'id':
+                raise SpecError('bound variable expected')
+            bv = z3.Int(args[0][1] + '!b')
+            e2 = env.bind(args[0][1], bv, True)
+            lo = self.eval_term(args[1], e2)
+            hi = self.eval_term(args[2], e2)
+            body = self.eval_bool(args[3], e2)
+            pats = []
+            seen = set()
+
+            def mentions_bv(t):
+                if t.get_id() == bv.get_id():
+                    return True
+                return any(mentions_bv(c) for c in t.children()) if z3.is_app(t) else True
+
+            def walk(t):
+                if t.get_id() in seen or not z3.is_app(t):
+                    return
+                seen.add(t.get_id())
+                if t.decl().kind() == z3.Z3_OP_SELECT and t.arg(1).get_id() == bv.get_id() and not mentions_bv(t.arg(0)):
+                    pats.append(t)
+                for c in t.children():
+                    walk(c)
+            walk(body)
+            # reads through frame overlays (lambdas) reduce to ite: each branch that is a plain read is a pattern
+            flat = []
+
+            def branches(t, depth=0):
+                if depth > 6:
+                    return
+                if z3.is_app(t) and t.decl().kind() == z3.Z3_OP_ITE:
+                    branches(t.arg(1), depth + 1)
+                    branches(t.arg(2), depth + 1)
+                elif z3.is_app(t) and t.decl().kind() == z3.Z3_OP_SELECT and mentions_bv(t):
+                    flat.append(t)
+            for t in pats:
+                branches(z3.simplify(t))
+            uniq = {}
+            for t in flat:
+                uniq[t.get_id()] = t
+            flat = list(uniq.values())
+            body_q = z3.Implies(z3.And(lo <= bv, bv < hi), body)
+            if flat:
+                try:
+                    return z3.ForAll([bv], body_q, patterns=[t for t in flat if model_pattern_ok(t)][:8] or None)
+                except z3.Z3Exception:
+                    pass
+            return forall([bv], body_q)
         if name in ('forall', 'exists'):
             if args[0][0] != 'id':
                 raise SpecError('bound variable expected')
@@ -496,6 +569,19 @@ class SpecEval:
             if name == 'forall':
                 return forall([bv], z3.Implies(rng, body))
             return z3.Exists([bv], z3.And(rng, body))
+        if name == 'foralltyped':
+            # foralltyped(x, T, body): for every value x of the (pointer or interface) type T
+            if args[0][0] != 'id':
+                raise SpecError('bound variable expected')
+            tk = self.type_key(args[1])
+            lay = m.layout(tk)
+            if len(lay) != 1:
+                raise SpecError('foralltyped needs a pointer or interface type')
+            bv = z3.Const(args[0][1] + '!t', m.sort(lay[0][1]))
+            e2 = env.bind(args[0][1], Val(tk, [bv]), True)
+            e2.bound = env.bound + (bv,)
+            body = self.eval_bool(args[2], e2)
+            return forall([bv], body)
         if name in ('forallref', 'forallstr'):
             # forallstr(a, body) / forallstr(a, c, body); directly nested quantifiers are merged into one
             # (z3 does not pull nested quantifiers, and the outer one would be left without a pattern)
@@ -521,6 +607,34 @@ class SpecEval:
             v = self.eval_term(args[0], env)
             base = env.old.alloc if env.old is not None else self.ex.entry_alloc
             return z3.And(v >= base, v < env.st.alloc)
+        if name == 'freshiface':
+            # freshiface(v): whatever pointer the interface value v holds was allocated since the old state
+            v = self.eval(args[0], env)
+            if not isinstance(v, Val) or m.kind(v.t) != 'interface':
+                raise SpecError('freshiface() of a non-interface')
+            base = env.old.alloc if env.old is not None else self.ex.entry_alloc
+            t = m.types.get(v.t) or {}
+            impls = t.get('impls') or (m.types.get(m.under(v.t)) or {}).get('impls') or []
+            a = v.leaves[0]
+            alts = [a == m.Any.nil]
+            for c in impls:
+                if c in m.any_index and m.kind(c) == 'pointer':
+                    r = m.any_get(c, a)[0]
+                    alts.append(z3.And(m.any_is(c, a), z3.Or(r == 0, z3.And(r >= base, r < env.st.alloc))))
+            return z3.Or(*alts)
+        if name == 'absent':
+            # absent(v): the interface value v is nil or holds a nil pointer (a "typed nil")
+            v = self.eval(args[0], env)
+            if not isinstance(v, Val) or m.kind(v.t) != 'interface':
+                raise SpecError('absent() of a non-interface')
+            t = m.types.get(v.t) or {}
+            impls = t.get('impls') or (m.types.get(m.under(v.t)) or {}).get('impls') or []
+            a = v.leaves[0]
+            alts = [a == m.Any.nil]
+            for c in impls:
+                if c in m.any_index and m.kind(c) == 'pointer':
+                    alts.append(z3.And(m.any_is(c, a), m.any_get(c, a)[0] == 0))
+            return z3.Or(*alts)
         if name == 'allocated':
             v = self.eval_term(args[0], env)
             return z3.And(v > 0, v < env.st.alloc)
@@ -528,6 +642,10 @@ class SpecEval:
             return z3.ToReal(self.eval_term(args[0], env))
         if name == 'floor':
             return z3.ToInt(self.eval_term(args[0], env))
+        if name in SPEC_UFS:
+            sorts = [{'S': m.Str, 'I': m.Int, 'B': m.Bool}[c] for c in SPEC_UFS[name]]
+            f = m.uf(name, *sorts)
+            return f(*[self.eval_term(a, env) for a in args])
         if name == 'slen':
             return m.slen(self.eval_term(args[0], env))
         if name == 'srunes':
@@ -621,6 +739,75 @@ class SpecEval:
         if h is not None:
             return h(self, env, [self.eval(a, env) for a in args])
         raise SpecError('unknown specification function %r' % name)
+
+    def range_of(self, v, env, depth=0):
+        m = self.m
+        ex = self.ex
+        rk = self.type_key(('sel', ('id', 'parser'), 'Range'))
+        if m.kind(v.t) == 'pointer':
+            p = ex.ptr_of(v)
+            path = self.find_field(ex.pointee_type(p), 'Range')
+            if path is None:
+                raise SpecError('no Range in %s' % v.t)
+            cur = p
+            for comp in path:
+                cur = Ptr(cur.kind, cur.T, cur.path + comp + '.', cur.ref, cur.idx)
+            return ex.load(env.st, cur)
+        t = m.types.get(v.t) or {}
+        impls = t.get('impls') or (m.types.get(m.under(v.t)) or {}).get('impls') or []
+        a = v.leaves[0]
+        res = None
+        for c in impls:
+            if c not in m.any_index or m.kind(c) != 'pointer':
+                continue
+            T = m.elem(c)
+            if self.find_field(T, 'Range') is None:
+                continue
+            ref = m.any_get(c, a)[0]
+            rv = self.range_of(Val(c, [ref]), env, depth + 1)
+            if res is None:
+                # a value that holds none of the node types with a Range has the zero Range (a fixed default,
+                # so that the term does not depend on the heap)
+                res = m.zero_val(rk)
+            res = Val(rk, [z3.If(m.any_is(c, a), x, y) for x, y in zip(rv.leaves, res.leaves)])
+        if res is None:
+            raise SpecError('rangeof: no implementer of %s carries a Range' % v.t)
+        return res
+
+    def method_call(self, f, args, env):
+        """x.Method(args) on a receiver whose type lies in an `externpure` package: the same uninterpreted
+        function the executor uses for that call"""
+        from . import lib
+        m = self.m
+        recv = self.eval(f[1], env)
+        meth = f[2]
+        if not isinstance(recv, Val):
+            raise SpecError('method call on a non-value')
+        avs = [self.eval(a, env) for a in args]
+        t = m.types.get(recv.t) or {}
+        if m.kind(recv.t) == 'interface':
+            sig = (t.get('sigs') or (m.types.get(m.under(recv.t)) or {}).get('sigs') or {}).get(meth)
+            if sig is None:
+                raise SpecError('no method %s on %s' % (meth, recv.t))
+            if not lib.is_externpure(self.ex, recv.t):
+                raise SpecError('method calls in specifications need an externpure receiver type (%s)' % recv.t)
+            key = 'ext_invoke_%s.%s' % (recv.t.rsplit('/', 1)[-1], meth)
+            rt = sig['results']
+        elif m.kind(recv.t) == 'pointer':
+            et = m.types.get(m.elem(recv.t)) or {}
+            sig = (et.get('sigs') or {}).get(meth)
+            if sig is None:
+                raise SpecError('no method %s on %s' % (meth, recv.t))
+            full = '(%s).%s' % (recv.t, meth)
+            if not lib.is_externpure(self.ex, full):
+                raise SpecError('method calls in specifications need an externpure receiver type (%s)' % recv.t)
+            key = 'ext_' + lib.short_callee(full)
+            rt = sig['results']
+        else:
+            raise SpecError('method call on %s' % recv.t)
+        if len(rt) != 1:
+            raise SpecError('method %s does not return exactly one value' % meth)
+        return lib.pure_value(self.ex, env.live, rt[0], key, [recv] + [a if isinstance(a, Val) else Val('int', [self.term(a)]) for a in avs])
 
     def view_call(self, sd, args, env):
         """a spec function kept opaque: F(version, scalar args) with one definitional axiom per distinct
